@@ -202,10 +202,27 @@ def check_cell(ctx, N, k, frozen_zeros, polar_i, mask_list=None, regimes=("sum_p
         if dname != "sc":
             continue
         dcell = {**cell, "decoder": "sc", "regime": regime}
+        kept = []
         for t in range(n_llr):
             scale = [1.0, 3.0, 0.3, 10.0, 30.0, 100.0][t % 6] if regime == "min_sum" else [1.0, 2.0, 0.5, 3.0, 1.5, 0.8][t % 6]
             llr = (rng.randn(N) * scale).astype(np.float32)
             sc_textbook(ctx, d, dcell, {**case, "decoder": "sc", "regime": regime}, llr, mask, fv, polar_i, regime, br)
+            kept.append(llr)
+        # the same words inside ONE batch together with a strong noise-free codeword (|LLR| = 40): every row must get the decision it gets
+        # alone (those were just compared with the textbook rule) - what one row needs numerically must not change another row's arithmetic
+        if len(kept) >= 2 and len(Xs):
+            big = ((1 - 2 * Xs[0]) * 40.0).astype(np.float32)
+            batch = np.stack([big] + kept[:5])
+            bcase = {**case, "decoder": "sc", "regime": regime, "batch": "mixed_magnitudes"}
+            with quiet():
+                ok, ob = ctx.call(lambda: d(torch.from_numpy(batch)), "C11.d_raises", {**dcell, "batch": "mixed"}, bcase, checker=CHK)
+                singles = [d(torch.from_numpy(r).unsqueeze(0)).detach().numpy().reshape(-1) for r in batch] if ok else []
+            if ok:
+                ob = ob.detach().numpy()
+                ctx.ev(len(batch))
+                bad = [i for i in range(len(batch)) if not np.array_equal(np.rint(ob[i]), np.rint(singles[i]))]
+                ctx.check(not bad, "C11.d_sc_textbook", {**dcell, "batch": "mixed"}, {**bcase, "rows_that_differ": bad[:4]}, None, None,
+                          "a word decoded in a batch with words of other magnitudes gets other decisions than decoded alone (and than the textbook rule)", CHK)
     ctx.cls(f"cells_N{N}")
     if len(ctx.samples) < 2:
         ctx.sample({"cell": cell, "k": k, "info_positions": np.nonzero(mask)[0].tolist()[:16], "messages": len(M)})
